@@ -142,7 +142,16 @@ def sentence_fn(drv, shape, subs, renderings):
         raise Bad(f'polish rendering {text!r} does not parse: {type(e).__name__}: {e}')
     if y != x or parsex.to_plain(y.ident) != ident:
         raise Bad(f'polish rendering {text!r} parses to a different sentence {y}')
-    # argument string
+    # argument string; an earlier argument string of this process used the same predicate
+    # symbols at another arity (the rebuild must not depend on that history)
+    for pr in x.predicates:
+        if not pr.is_system:
+            params = 'mnos'[:pr.arity + 1] if pr.arity < 4 else 'm'
+            sub = str(pr.subscript) if pr.subscript else ''
+            try:
+                Argument('FGHO'[pr.index] + sub + params)
+            except Exception:  # noqa: BLE001
+                pass
     arg = Argument(x, [~x, x])
     try:
         arg2 = Argument(arg.argstr())
